@@ -270,6 +270,13 @@ func (s *Service) Query(inputs []*requests.Request) ([]map[string]interface{}, e
 			errs = gqlerrors.ErrorList{{Message: "injected failure", Path: []interface{}{"x", 1}, Extensions: map[string]interface{}{"code": "INJECTED", "n": float64(i), "svc": s.Addr}}}
 			data = nil
 			s.FaultsApplied++
+		case "blank_error":
+			errs = gqlerrors.ErrorList{{}}
+			data = nil
+			s.FaultsApplied++
+		case "blank_errors_with_data":
+			errs = gqlerrors.ErrorList{{Message: ""}, {}}
+			s.FaultsApplied++
 		case "nulldata":
 			// what the real MultiOpQueryer makes of an element without data and errors (fix 8df4d50)
 			data = nil
